@@ -41,6 +41,7 @@ def alphabet(scale):
         "A" + vec(10.0 * scale, 0.0, 5.0 * scale, 0.0) + ",0",
         "H0", "H59999", "H60000", "H60001", "H180000",
         "F",
+        "J0,0", "J200,1",       # a refused init (invalid scale) on the live builder
     ]
 
 
@@ -69,6 +70,8 @@ def generate(rng, tier):
             r = rng.random()
             if r < 0.08:
                 calls.append("F")
+            elif r < 0.1:
+                calls.append(f"J{rng.choice([0, 128, 200, 255])},{rng.choice([0, 1])}")
             elif r < 0.2:
                 calls.append("S" + vec(rng.uniform(-lim, lim) * rng.choice([1, 1, 1.1]), rng.uniform(-lim, lim), rng.uniform(-lim, lim), rng.uniform(-720, 720)))
             elif r < 0.35:
